@@ -47,6 +47,7 @@ type mqLog struct {
 }
 
 type mockMQ struct {
+	allReqs      []mqLog // all requests of the history
 	mu           sync.Mutex
 	subs         map[string]*mockSub
 	reqs         []*mockReq
@@ -101,6 +102,7 @@ func (m *mockMQ) SendRequest(subj string, payload []byte, cb mq.Response) {
 		tooLong: len(subj)+inboxLen > maxControlLine}
 	m.reqs = append(m.reqs, r)
 	m.log = append(m.log, mqLog{kind: "req", subject: subj, payload: r.payload, id: r.id})
+	m.allReqs = append(m.allReqs, mqLog{kind: "req", subject: subj, payload: r.payload, id: r.id})
 }
 
 func (m *mockMQ) Subscribe(namespace string, cb mq.Response) (mq.Unsubscriber, error) {
@@ -125,6 +127,13 @@ func (m *mockMQ) drainLog() []mqLog {
 	l := m.log
 	m.log = nil
 	return l
+}
+
+// fullLog: every request ever sent (the step log is drained after each stimulus).
+func (m *mockMQ) fullLog() []mqLog {
+	m.mu.Lock()
+	defer m.mu.Unlock()
+	return append([]mqLog(nil), m.allReqs...)
 }
 
 func (m *mockMQ) logLen() int {
